@@ -76,7 +76,11 @@ fn qkind(q: &Query) -> &'static str {
         Query::Method(..) => "remap_method",
         Query::FrameLine { .. } => "remap_frame_by_line",
         Query::FrameParams { .. } => "remap_frame_by_params",
-        _ => "compound",
+        Query::Throwable { .. } => "remap_throwable",
+        Query::TraceText(_) => "remap_stacktrace",
+        Query::TraceTyped(_) => "remap_stacktrace_typed",
+        Query::Signature(_) => "deobfuscate_signature",
+        _ => "other",
     }
 }
 
@@ -282,11 +286,11 @@ fn simulate_history(run: u64, rng: &mut Rng, mappings: &[Vec<u8>], uni: &UniCfg,
 
 // ---------------------------------------------------------------------------------------------
 
-const UNI_MIN: UniCfg = UniCfg { lines_full: true, cap: 200_000, compound: false };
+const UNI_MIN: UniCfg = UniCfg { lines_full: true, cap: 200_000, compound: true };
 
 fn find_violation(mapping: &[u8], class: &str) -> Option<(Rel, String, Option<Query>)> {
     let mut rng = Rng::new(1);
-    let big = UniCfg { lines_full: false, cap: 40_000, compound: false };
+    let big = UniCfg { lines_full: false, cap: 40_000, compound: true };
     let queries = universe(mapping, &mut rng, if mapping.len() > 200_000 { &big } else { &UNI_MIN });
     let mut st = Stats::default();
     for w in [Rel::Pinned, Rel::Current] {
@@ -370,17 +374,17 @@ pub fn main(env: &Env) -> i32 {
     rep.stubs = vec!["simulated deployment: blob store + writer/reader roles whose release is switched by deploy/rollback events".into()];
     rep.assumptions = vec![
         "files are immutable and readers stateless, so a history reduces to the (writer release, reader release, file, query) tuples it contains; the history generator covers upgrade / rollback / mixed-fleet orders".into(),
-        "primitive queries only (remap_class, remap_method, remap_frame by line and by parameters): compound APIs reach the file only through them".into(),
+        "all query kinds are compared 'query for query': remap_class, remap_method, remap_frame by line and by parameters, remap_throwable, remap_stacktrace (text), remap_stacktrace_typed, deobfuscate_signature (the first design compared primitive lookups only; a reader change confined to the text API was then invisible, see DESIGN.md 11)".into(),
         "queries on which the pinned reader itself panics are skipped (counted)".into(),
     ];
     let seed = env.seed;
     let thorough = env.thorough;
     let n = if thorough { env.scaled(1_500_000) } else { env.scaled(6000) };
     let corpus = gen::corpus(thorough);
-    let uni = UniCfg { lines_full: !thorough, cap: if thorough { 2500 } else { 4000 }, compound: false };
+    let uni = UniCfg { lines_full: !thorough, cap: if thorough { 2500 } else { 4000 }, compound: true };
     rep.rule = format!(
         "{} seeded histories, each over 1..3 generated mappings (0..{} classes x 0..{} members) with 6..18 deploy/write/read events plus a final audit that writes every mapping with both releases and reads it with the other one; {} corpus files likewise, plus huge generated mappings (> 65 536 classes and members; 1 in quick, 3 in thorough; 40 000 sampled queries each). \
-         Every cross-release read compares the full primitive query universe of the mapping (all names + near misses x lines 0..66, range boundaries +-1, extremes; cap {} per mapping). \
+         Every cross-release read compares the full query universe of the mapping (all names + near misses x lines 0..66, range boundaries +-1, the same shifted by multiples of 2^32, extremes; throwables, text and typed traces in usual and unusual shapes, signatures; cap {} per mapping). \
          distinct_nontrivial = sum over distinct mappings of 2 x (queries in its universe) = distinct (writer release, file, query) comparisons.",
         n,
         if thorough { 20 } else { 10 },
@@ -395,7 +399,7 @@ pub fn main(env: &Env) -> i32 {
         if i >= n + corpus.len() as u64 {
             // scale: > 65 536 classes and members in one file
             let m = gen::gen_huge(&mut rng);
-            let big = UniCfg { lines_full: false, cap: 40_000, compound: false };
+            let big = UniCfg { lines_full: false, cap: 40_000, compound: true };
             simulate_history(i, &mut rng, &[m], &big, st, vs, false);
         } else if i < n {
             let k = rng.range(1, 3);
@@ -403,7 +407,7 @@ pub fn main(env: &Env) -> i32 {
             simulate_history(i, &mut rng, &mappings, &uni, st, vs, i < 2);
         } else {
             let (_, m) = &corpus[(i - n) as usize];
-            let big = UniCfg { lines_full: false, cap: if m.len() > 500_000 { 60_000 } else { 30_000 }, compound: false };
+            let big = UniCfg { lines_full: false, cap: if m.len() > 500_000 { 60_000 } else { 30_000 }, compound: true };
             simulate_history(i, &mut rng, &[m.clone()], &big, st, vs, false);
         }
     });
